@@ -375,8 +375,7 @@ func visitInstr(fr *frame, instr ssa.Instruction) continuation {
 
 	case *ssa.MapUpdate:
 		m := fr.get(instr.Map).(*omap)
-		key := fr.i.concKey(fr.get(instr.Key))
-		fr.i.mapInsert(m, key, fr.get(instr.Value))
+		fr.i.mapInsert(m, fr.get(instr.Key), fr.get(instr.Value))
 
 	case *ssa.TypeAssert:
 		fr.env[instr] = typeAssert(fr.i, instr, fr.get(instr.X).(iface))
